@@ -788,6 +788,18 @@ func checkSpec(s *Spec, depths []int, deep int) {
 				if err := lib.VMStream(res, drv, vc, src, nil, []int64{-1}, func(int64) interface{} { return in }); err != nil {
 					fatal(err)
 				}
+				// hypothesis of Tengo.Props.VM.tail_call_constant_space: the whole-program verifier accepts the code
+				if drv != nil {
+					ans, aerr := drv.Ask(lib.VMVerifyProgLine(vc.BC, tengo.GlobalsSize))
+					if aerr != nil {
+						fatal(aerr)
+					}
+					res.ModelLines++
+					res.Dist("verifyprog:" + strings.Fields(ans + " -")[0])
+					if fs := strings.Fields(ans); len(fs) != 3 || fs[0] != "ok" || fs[2] != "1" {
+						res.Disagree(lib.Disagreement{Stream: "verifyprog", Input: in, Model: ans, Impl: "code emitted by the real compiler for a generated recursive function"})
+					}
+				}
 			}
 		}
 		res.Count(stream, key, d >= 2 && len(s.Params)+len(s.Locals) >= 1)
